@@ -48,6 +48,10 @@ func connInv(c *Conn) bool {
 	if c.copts == nil && mw.flate {
 		return false
 	}
+	// the process-wide random source is not a connection's reader
+	if ghconn(specRand()) != nil {
+		return false
+	}
 	// internal buffers do not overlap
 	if c.client && (gvcRegion(c.writeBuf) == gvcRegion(c.readControlBuf[:]) || gvcRegion(c.writeBuf) == gvcRegion(c.writeHeaderBuf[:]) || gvcRegion(c.writeBuf) == gvcRegion(c.readHeaderBuf[:])) {
 		return false
